@@ -128,11 +128,17 @@ def main():
             # /verif while a long validation runs cannot break it half-way
             snap = os.path.join(out, "verif-snapshot")
             os.makedirs(snap, exist_ok=True)
+            src = "/verif"
+            if os.path.exists("/tmp/seed/FROZEN"):
+                # first runs of a round are made against the machinery as it stood when the round's seeds were
+                # requested (a frozen copy), so that strengthening done meanwhile does not count as "caught at once"
+                src = open("/tmp/seed/FROZEN").read().strip()
+            res["verif_used"] = src
             for sub in ("harness", "rt"):
-                shutil.copytree(os.path.join("/verif", sub), os.path.join(snap, sub), dirs_exist_ok=True)
-            shutil.copy("/verif/KNOWN_FINDINGS.txt", snap)
+                shutil.copytree(os.path.join(src, sub), os.path.join(snap, sub), dirs_exist_ok=True)
+            shutil.copy(os.path.join(src, "KNOWN_FINDINGS.txt"), snap)
             gosym = os.path.join(snap, "gosym")
-            shutil.copy("/verif/bin/gosym", gosym)
+            shutil.copy(os.path.join(src, "bin/gosym"), gosym)
             env = dict(ENV, GOSYM_REPO=wt, GOSYM_OUT=out, GOSYM_VERIF=snap)
             det = {}
             for p in plist:
